@@ -715,6 +715,54 @@ def difftest(args, scratch):
                "UNEXPECTED: lean=%r go=%r %s" % (rl.stdout[-400:], rg.stdout[-400:], (rl.stderr + rg.stderr)[-300:]))
     return res
 
+XINIT = ["bitmap.initMasks", "bitmap.initSelectLookup", "bmtree.init", "bitmap.NewTailBitmap", "bitmap.NewBuilder", "sigbits.New"]
+
+
+def difftest7(args, scratch):
+    """Differential test of the initialiser / constructor translation (no tie involved): the tables `Mask … RBit`,
+    `select8Lookup`, `idxToPath` as the REAL package initialisation leaves them (printed by testdata/xinit_main.go, built
+    with -tags verif) must equal the tables the regenerated initialisers return when Lean EVALUATES them; likewise the
+    fields of `NewTailBitmap(128)`, `NewBuilder(1000)` and the counters of `New(keys).CountPrefixes`."""
+    res = {"case": "initialiser / constructor translation: generated Lean evaluated against the tables of the running Go program",
+           "expect": "difftest", "target": ",".join(XINIT)}
+    d = os.path.join(scratch, "difftest7")
+    repo, out, gomain = os.path.join(d, "repo"), os.path.join(d, "out"), os.path.join(d, "gomain")
+    shutil.copytree(args.base, repo, ignore=shutil.ignore_patterns(".git"))
+    os.makedirs(out)
+    os.makedirs(gomain)
+    td = os.path.join(HERE, "testdata")
+    r = subprocess.run([args.bin, "-q", "-repo", repo, "-outdir", out, "-only", ",".join(XINIT)],
+                       capture_output=True, text=True, env=ENV)
+    if r.returncode != 0:
+        res.update(ok=False, outcome="UNEXPECTED: translator exit %d: %s" % (r.returncode, (r.stdout + r.stderr)[-300:]))
+        return res
+    texts = [open(os.path.join(out, lean_name(t) + ".lean")).read() for t in XINIT]
+    imports = []
+    for t in texts:
+        for m in IMPORT_RE.finditer(t):
+            if not m.group(1).startswith("Generated.Ssa7.") and m.group(1) not in imports:
+                imports.append(m.group(1))
+    imports.append("Generated.Ssa3.sigbits_SigBits_CountPrefixes")
+    lean_file = os.path.join(d, "Eval.lean")
+    open(lean_file, "w").write("".join("import %s\n" % i for i in imports) + "".join(IMPORT_RE.sub("", t) for t in texts) +
+                               open(os.path.join(td, "xinit_eval.lean.txt")).read())
+    rl = subprocess.run(["lake", "env", "lean", lean_file], cwd=args.lean, capture_output=True, text=True, timeout=600)
+    shutil.copy(os.path.join(td, "xinit_main.go.txt"), os.path.join(gomain, "main.go"))
+    open(os.path.join(gomain, "go.mod"), "w").write(
+        "module gochk\ngo 1.22\nrequire github.com/openacid/low v0.0.0\nreplace github.com/openacid/low => %s\n" % repo)
+    if os.path.exists(os.path.join(repo, "go.sum")):
+        shutil.copy(os.path.join(repo, "go.sum"), gomain)
+    rg = subprocess.run(["go", "run", "-tags", "verif", "."], cwd=gomain, capture_output=True, text=True, env=ENV)
+    nums = lambda text: [re.findall(r"-?\d+", l) for l in text.strip().splitlines()]
+    lean_lines, go_lines = nums(rl.stdout), nums(rg.stdout)
+    total = sum(len(l) for l in go_lines)
+    ok = rl.returncode == 0 and rg.returncode == 0 and "none" not in rl.stdout and "error" not in rl.stdout \
+        and len(go_lines) == 19 and total > 2400 and lean_lines == go_lines
+    res.update(ok=ok, lines=len(go_lines),
+               outcome=("%d lines, %d numbers agree" % (len(go_lines), total)) if ok else
+               "UNEXPECTED: lean=%r go=%r %s" % (rl.stdout[-300:], rg.stdout[-300:], (rl.stderr + rg.stderr)[-400:]))
+    return res
+
 
 def main():
     ap = argparse.ArgumentParser()
@@ -778,6 +826,8 @@ def main():
                 results.append(f.result())
         if args.gen in ("4", "all") and (args.only == "" or args.only in "difftest"):
             results.append(difftest(args, scratch))
+        if args.gen in ("7", "all") and (args.only == "" or args.only in "difftest"):
+            results.append(difftest7(args, scratch))
     finally:
         if args.keep:
             print("scratch kept:", scratch)
@@ -806,7 +856,7 @@ def main():
               n("unsupported") + n("nobuild")))
     for r in results:
         if r["expect"] == "difftest":
-            print("closure-translation differential test: " + r["outcome"])
+            print("differential test (%s): %s" % (r["case"].split(":")[0], r["outcome"]))
     if args.json:
         json.dump(results, open(args.json, "w"), indent=1)
     sys.exit(1 if bad else 0)
